@@ -763,6 +763,20 @@ def serde_tables(prog):
                 out['required_fields'].setdefault(m2.group(1), []).append(strs[0])
     return out
 
+def callsite_inventory(prog):
+    """every call site in hand-written (non-derive) bodies: (callee, resolved callee, caller, span, constant args as text)"""
+    out = []
+    for b in prog.raw['bodies']:
+        d = b['def']
+        if '::_::' in d or d.startswith('tests::') or any(x in d for x in ('as std::fmt::Debug', 'as std::clone::Clone>', 'as std::cmp::PartialEq>', 'std::fmt::Display', 'std::error::Error')): continue
+        for bb in b['blocks']:
+            t = bb['t']
+            if t['k'] != 'call' or 'fn' not in t['f']: continue
+            fn = t['f']['fn']; res = fn.get('res')
+            consts = [a.get('txt') for a in t['args'] if a['k'] == 'const' and 'fn' not in a]
+            out.append({'callee': fn['def'], 'resolved': res['def'] if res else None, 'caller': d, 'span': t['sp'], 'consts': consts, 'from_expansion': t.get('exp', False)})
+    return out
+
 def analyse(facts_path, out_path=None, verbose=False):
     facts = json.load(open(facts_path))
     prog = Program(facts)
@@ -781,6 +795,7 @@ def analyse(facts_path, out_path=None, verbose=False):
                 for e in r['exits']: ks[e['kind']] = ks.get(e['kind'], 0) + 1
                 print('root %-12s %-24s exits=%d %s wall=%.1fs steps=%d' % (kind, name, len(r['exits']), ks, r['wall'], it.steps), file=sys.stderr)
     result['serde'] = serde_tables(prog)
+    result['callsites'] = callsite_inventory(prog)
     result['unmodelled'] = it.unmodelled
     result['inlined'] = it.inlined
     result['steps'] = it.steps
